@@ -460,6 +460,8 @@ class SymX:
         """`it.fold(init, |acc, x| body)` is `let mut acc = init; for x in it { acc = body }; acc`; `it.for_each(|x| body)` is `for x in it { body }`:
         the same <for> trace entry (nested path set, phi for the carried value) as the loop statement."""
         name = target.split("::")[-1]
+        if name == "try_fold" and target.startswith("std::iter::Iterator::"):
+            name = "fold"       # `it.try_fold(init, |acc, x| -> Result)`: the same loop, the accumulator wrapped in Ok, leaving early on the first Err
         if not target.startswith("std::iter::Iterator::") or name not in ("fold", "for_each"):
             return None
         clo = vals[-1]
@@ -1055,12 +1057,12 @@ class SymX:
                     while cp.get("k") in ("pref", "pderef"):
                         cp = cp["p"]
                     if is_call_t(v) and v[1] in ("std::option::Option::<T>::map", "std::result::Result::<T, E>::map") and len(v[2]) == 2 and \
-                            isinstance(v[2][1], tuple) and v[2][1][0] in ("closure", "def") and cp.get("k") == "ptuplestruct" and \
+                            isinstance(v[2][1], tuple) and v[2][1][0] in ("closure", "def", "ctor") and cp.get("k") == "ptuplestruct" and \
                             (cp.get("path") or "").split("::")[-1] in ("Some", "Ok") and len(cp["pats"]) == 1:
                         # `if let Some(y) = x.map(f)` is `if let Some(v) = x { let y = f(v); .. }`
-                        x, good = v[2][0], (cp.get("path") or "").split("::")[-1]
+                        (x, fs_), good = self._peel_maps(v), (cp.get("path") or "").split("::")[-1]
                         s_t = s.cond(("match", x, pr, True, c["pat"]))
-                        applied = self.apply_fn(v[2][1], [("proj", x, good + ".0")], s_t, e)
+                        applied = self._apply_chain(fs_, ("proj", x, good + ".0"), s_t, e)
                         if applied is not None:
                             for s2, val in applied:
                                 self.bind(cp["pats"][0], val, s2)
@@ -1117,6 +1119,8 @@ class SymX:
                 pol_ = True
                 while isinstance(v, tuple) and v[0] == "un" and v[1] == "Not":
                     v, pol_ = v[2], not pol_          # `if !x` tests x with the branches exchanged
+                if isinstance(v, tuple) and v[0] == "bin" and v[1] == "Ne":
+                    v, pol_ = ("bin", "Eq", v[2], v[3]), not pol_       # `a != b` is `a == b` with the branches exchanged
                 outs.extend(self.ev(e["t"], s.cond(("if", v, pol_))))
                 s_f = s.cond(("if", v, not pol_))
                 if "e" in e:
@@ -1348,6 +1352,15 @@ class SymX:
             if lazy is not None:
                 outs.extend(lazy)
                 continue
+            if len(e["arms"]) == 2 and not any("guard" in a for a in e["arms"]) and isinstance(v, tuple) and v[0] in ("call", "ok?", "await"):
+                a0, a1 = e["arms"][0]["pat"], e["arms"][1]["pat"]
+                if a0.get("k") == "pexpr" and a0.get("path") and isinstance(a0.get("e"), dict) and a0["e"].get("k") == "path" and str(a0.get("ty", "")).startswith("ipp::") and \
+                        a1.get("k") == "wild":
+                    # `match f(x) { Enum::A => a, _ => b }` on a computed crate enum is `if f(x) == Enum::A { a } else { b }`
+                    test = ("bin", "Eq", v, ("ctor", a0["path"], []))
+                    outs.extend(self.ev(e["arms"][0]["body"], s.cond(("if", test, True))))
+                    outs.extend(self.ev(e["arms"][1]["body"], s.cond(("if", test, False))))
+                    continue
             excluded = set()      # variants wholly matched by earlier unguarded arms
             earlier_nodes = []    # pattern nodes of earlier unguarded arms (for rules that evaluate the arms on concrete values)
             earlier = []          # patterns of earlier *unguarded* arms: reaching a later arm proves these did not match
@@ -1406,6 +1419,9 @@ class SymX:
                             s_i = s_i.cond(("if", ("bin", "Eq", v, lj), False))
                 vs = pat_variant_set(ap)
                 known = v[1].split("::")[-1] if (isinstance(v, tuple) and v[0] == "ctor" and v[1].split("::")[-1] in ("Some", "None", "Ok", "Err")) else None
+                if known is None and isinstance(v, tuple) and v[0] == "ctor" and vs is not None and vs[0] != "*" and v[1].startswith("ipp::") and all(q.startswith("ipp::") for q in vs[0]) and \
+                        v[1].rsplit("::", 1)[0] == sorted(vs[0])[0].rsplit("::", 1)[0]:
+                    known = v[1].split("::")[-1]        # a crate enum whose variant is known on this path (an inlined classifier returned it)
                 if known is not None and vs is not None and vs[0] != "*" and known not in {q.split("::")[-1] for q in vs[0]}:
                     (earlier_guarded if "guard" in arm else earlier).append(pr)
                     continue        # the value's constructor is known on this path (an inlined helper returned it): this arm cannot match
@@ -1433,10 +1449,32 @@ class SymX:
                     break           # .. and this arm always does: later arms are unreachable
         return outs
 
+    def _peel_maps(self, v):
+        """`x.map(f).map(g)` -> (x, [f, g], kind of the outermost map call)."""
+        fs, kind = [], None
+        while is_call_t(v) and v[1] in ("std::option::Option::<T>::map", "std::result::Result::<T, E>::map") and len(v[2]) == 2 and \
+                isinstance(v[2][1], tuple) and v[2][1][0] in ("closure", "def", "ctor"):
+            kind = kind or v[1]
+            fs.insert(0, v[2][1])
+            v = v[2][0]
+        return v, fs
+
+    def _apply_chain(self, fs, val, s, e):
+        states = [(s, val)]
+        for f in fs:
+            nxt = []
+            for s_c, v_c in states:
+                r = self.apply_fn(f, [v_c], s_c, e)
+                if r is None:
+                    return None
+                nxt.extend(r)
+            states = nxt
+        return states
+
     def _match_on_map(self, e, s, v):
         """`match x.map(f) { Some(y) => A, None => B }` is `match x { Some(v) => { let y = f(v); A }, None => B }` (two plain arms only)."""
         if not (is_call_t(v) and v[1] in ("std::option::Option::<T>::map", "std::result::Result::<T, E>::map") and len(v[2]) == 2 and
-                isinstance(v[2][1], tuple) and v[2][1][0] in ("closure", "def")) or len(e["arms"]) != 2 or any("guard" in a for a in e["arms"]):
+                isinstance(v[2][1], tuple) and v[2][1][0] in ("closure", "def", "ctor")) or len(e["arms"]) != 2 or any("guard" in a for a in e["arms"]):
             return None
         yes = no = None
         for a in e["arms"]:
@@ -1450,11 +1488,11 @@ class SymX:
                 no = (a, ap)
         if yes is None or no is None:
             return None
-        x = v[2][0]
+        x, fs = self._peel_maps(v)
         good = (yes[1].get("path") or "").split("::")[-1]
         pr = show(yes[1])
         s_t = s.cond(("match", x, pr, True, yes[1]))
-        applied = self.apply_fn(v[2][1], [("proj", x, good + ".0")], s_t, e)
+        applied = self._apply_chain(fs, ("proj", x, good + ".0"), s_t, e)
         if applied is None:
             return None
         outs = []
